@@ -61,11 +61,13 @@ def run(ctx: Ctx):
                             cols[d2.name] = "start"
                         if "slices[..., 1]" in txt and (d2.slot in (None, (1,))):
                             cols.setdefault(d2.name, "end")
+                import re as _re
                 for nm, r_ in cols.items():
-                    v = v.replace(nm, r_.upper())
-                if v.startswith("(-START).clamp_min_(0)"):
+                    v = _re.sub(rf"\b{_re.escape(nm)}\b", r_.upper(), v)
+                v0 = v.replace("clamp_min_(", "clamp_min(")  # in place or not: the same value
+                if v0.startswith("(-START).clamp_min(0)") or v0.startswith("torch.clamp_min(-START, 0)"):
                     return "<left>"
-                if v.startswith("(END - lens).clamp_min_(0)"):
+                if v0.startswith("(END - lens).clamp_min(0)") or v0.startswith("torch.clamp_min(END - lens, 0)"):
                     return "<right>"
                 return v
             got["left_pad"], got["right_pad"] = role(b.arg_for("left_pad")), role(b.arg_for("right_pad"))
@@ -156,8 +158,18 @@ def run(ctx: Ctx):
             if isinstance(c.func, ast.Attribute) and c.func.attr == "masked_scatter" and len(c.args) == 2 \
                     and u(c.args[1]) in (st_names or set()):
                 gs = guards_of(pmf, c)
-                if not any(u(t) == "mode != 'constant'" and pol for t, pol in gs):
-                    bad.append(c)
+                # unreachable when mode is a placeholder mode: `if mode != 'constant':`, the else arm of `== 'constant'`, or
+                # after the guard clause `if mode == 'constant': return ...`
+                from sa.specialise import _eval as _sev, _UNK as _SUNK
+                for m_ in sorted(placeholder_modes) or ["constant"]:
+                    excluded = False
+                    for t, pol in gs:
+                        v_ = _sev(t, {"mode": m_})
+                        if v_ is not _SUNK and bool(v_) != pol:
+                            excluded = True
+                    if not excluded:
+                        bad.append(c)
+                        break
         col.ob("G8", "S2", f"{rel}::{f.qualname}::buffer-scatters-skipped-for-placeholders", not bad,
                f"`{u(bad[0])[:70] if bad else ''}` scatters a placeholder buffer in constant mode", rel,
                bad[0].lineno if bad else f.line)
@@ -617,13 +629,16 @@ def _pad_arithmetic(ctx: Ctx, pv, gpb):
         if isinstance(n, ast.Call) and isinstance(n.func, ast.Attribute):
             if n.func.attr == "masked_select" and len(n.args) == 1:
                 found["valid-elements"] = n.args[0]
-            if n.func.attr == "masked_scatter" and len(n.args) == 2 and isinstance(n.args[1], ast.Name):
-                ds = list(rd.defs_of(n.args[1]))
+            if n.func.attr in ("masked_scatter", "masked_scatter_") and len(n.args) == 2:
+                src_ = n.args[1]
+                ds = list(rd.defs_of(src_)) if isinstance(src_, ast.Name) else []
                 if len(ds) == 1 and ds[0].kind == "unpack" and ds[0].value is kcalls[0]:
                     found[("left-buffer-positions", "right-buffer-positions")[ds[0].slot[0]]] = n.args[0]
-                elif len(ds) == 1 and ds[0].kind == "assign" and isinstance(ds[0].value, ast.Call) and \
-                        isinstance(ds[0].value.func, ast.Attribute) and ds[0].value.func.attr == "masked_select":
-                    found["sequence-positions"] = n.args[0]
+                else:
+                    # the valid elements, selected into a temporary first or in place
+                    sv_ = ds[0].value if len(ds) == 1 and ds[0].kind == "assign" else src_
+                    if isinstance(sv_, ast.Call) and isinstance(sv_.func, ast.Attribute) and sv_.func.attr == "masked_select":
+                        found["sequence-positions"] = n.args[0]
     if set(found) != set(specs):
         raise AnalysisError(f"C09: pad_variable anchors not found: {sorted(set(specs) - set(found))}")
     for key, expr in found.items():
@@ -645,7 +660,7 @@ def _pad_arithmetic(ctx: Ctx, pv, gpb):
     P = [p.name for p in gpb.params]
     for mode in ("reflect", "replicate"):
         node, folded = specialise(gpb.node, {P[4]: mode})
-        if folded < 2:
+        if folded < 1:  # (how many tests are folded depends on the order of the arms)
             raise AnalysisError("C09: _get_padding_buffers no longer dispatches on its mode formal")
         rd, ex = make(node, lp=P[2], rp=P[3], lens=P[1])
         rets = [n for n in ast.walk(node) if isinstance(n, ast.Return) and isinstance(n.value, ast.Tuple) and len(n.value.elts) == 2]
